@@ -256,6 +256,22 @@ Section HistoryFail.
       destruct (sample_growth_s cfg target fuel (h_rng M R st) start) as [r [[[[[nm i0] m] cw] log]|e]]; cbn [snd]; [reflexivity|exact I].
   Qed.
 
+  (** whatever the history before it, a constructor call leaves the shared generator in the state of its seed
+      (also when the constructor raises after its first statement) *)
+  Lemma construct_resets_generator st pre id a seed :
+    h_rng M R (fst (hrun2 st (pre ++ [Construct M id a seed]))) = rseed seed.
+  Proof.
+    rewrite hrun2_app. destruct (hrun2 st pre) as [st1 o1]. cbn [hrun2 hstep2].
+    destruct (init M (a_frags M a) (a_poly M a) (a_fragreact M a) (a_term M a) (a_masses M a)); reflexivity.
+  Qed.
+  (** and a sample call changes nothing but the generator: the registry of samplers is untouched *)
+  Lemma sample_keeps_samplers st id target start fuel :
+    h_samplers M R (fst (hstep2 st (Sample M id target start fuel))) = h_samplers M R st.
+  Proof.
+    cbn [hstep2]. destruct (lookup id (h_samplers M R st)) as [cfg|]; [|reflexivity].
+    destruct (sample_growth_s cfg target fuel (h_rng M R st) start); reflexivity.
+  Qed.
+
   (** seed determinism survives failed samples: whatever calls came before — constructions, samples
       that succeeded, samples that FAILED half-way — construct(seed); sample(w) is the fresh run *)
   Theorem seed_determines2 : forall st id a seed target start fuel cfg,
